@@ -65,9 +65,14 @@ def boundaries(seg):
     return [p for p in range(1, len(b)) if not (0x80 <= b[p] < 0xC0)]
 
 
-def events_of(case):
+def histories(case):
+    """the connections made one after the other on ONE client / transport object: "segments", then each of "then" """
+    return [case["segments"]] + list(case.get("then", []))
+
+
+def events_of(case, segments=None):
     ev = []
-    for seg in case["segments"]:
+    for seg in (case["segments"] if segments is None else segments):
         if "set" in seg:
             ev.append({"v": seg["set"]})
         if "handshake" in seg:  # a real initialize handshake (stdio_client_with_initialize): the child answers with this version
@@ -86,7 +91,7 @@ def events_of(case):
 
 
 def all_texts(case):
-    return [it["text"] for seg in case["segments"] for it in seg["items"]]
+    return [it["text"] for segs in histories(case) for seg in segs for it in seg["items"]]
 
 
 class Transport(Suite):
@@ -185,6 +190,13 @@ class Transport(Suite):
             out.append({"segments": [{"set": "2025-06-18", "items": [line(VALID[2])] + [b] * k + [line(VALID[3])], "cuts": []},
                                      {"set": "2025-03-26", "items": [b, line(VALID[2])], "cuts": []},
                                      {"set": "2025-06-18", "items": [b] * k, "cuts": []}]})
+        # the SAME transport / client object entered again: a connection at v1; then a second connection on which a batch arrives
+        # BEFORE anything has been negotiated, and more batches after its own handshake at v2; a third one never negotiating
+        for api in ("transport", "client"):
+            for v1, v2 in itertools.product(("2025-06-18", "2025-03-26"), repeat=2):
+                out.append({"segments": [{"set": v1, "items": mixed, "cuts": []}],
+                            "then": [[{"items": [b, line(VALID[2])], "cuts": []}, {"set": v2, "items": [b, b], "cuts": [7]}],
+                                     [{"items": mixed, "cuts": []}]], "opts": {"api": api}})
         # non-default connection options crossed with rejection / acceptance
         for server in ({"env": {"LOG_LEVEL": "ERROR"}}, {"env": {"LOGGING_LEVEL": "CRITICAL"}, "args": ["--quiet"]}):
             for v in ("2025-06-18", "2025-03-26"):
@@ -207,6 +219,8 @@ class Transport(Suite):
 
         def harness_case(c):
             h = dict({"events": events_of(c), "opts": c.get("opts", {})}, **{k: c[k] for k in ("debug", "server") if k in c})
+            if c.get("then"):
+                h["session_events"] = [events_of(c, segs) for segs in histories(c)]
             if c.get("with"):
                 h["with"] = [harness_case(w) for w in c["with"]]
             return h
@@ -217,41 +231,54 @@ class Transport(Suite):
     def model_line(self, case):
         table, _ = G.line_table(all_texts(case))
         # (the reader model does not know about the child's stdin: with it closed the rejection is decided but cannot be written)
-        evs = []
-        for e in events_of(case):
-            if "close_stdin" in e or "sleep" in e:
-                continue
-            evs.append({"v": e["reply_init"]} if "reply_init" in e else e)  # the handshake's only effect on the reader: the version
-        return {"m": "stdio_reader", "events": evs, "table": table, "cap": 100}
+        def model_events(segs):
+            evs = []
+            for e in events_of(case, segs):
+                if "close_stdin" in e or "sleep" in e:
+                    continue
+                evs.append({"v": e["reply_init"]} if "reply_init" in e else e)  # the handshake's only effect on the reader: the version
+            return evs
+
+        if case.get("then"):  # consecutive connections on one object (Model.StdioIn.runSessions)
+            return {"m": "stdio_reader", "sessions": [model_events(segs) for segs in histories(case)], "table": table, "cap": 100}
+        return {"m": "stdio_reader", "events": model_events(case["segments"]), "table": table, "cap": 100}
 
     def model_obs(self, out, case):
         if "driver_error" in out:
             return out
         _, msgs = G.line_table(all_texts(case))
-        return {"delivered": [msgs[i][0] for i in out["delivered"]], "notified": [msgs[i][0] for i in out["offered"]],
-                "rejections": out["rejections"]}
+
+        def one(out):
+            return {"delivered": [msgs[i][0] for i in out["delivered"]], "notified": [msgs[i][0] for i in out["offered"]],
+                    "rejections": out["rejections"]}
+
+        if "sessions" in out:
+            ss = [one(x) for x in out["sessions"]]
+            return dict(ss[-1], earlier=ss[:-1])
+        return one(out)
 
     def compare(self, case, o, m):
         if "harness_error" in o or "driver_error" in m:
             return "error"
-        if o["delivered"] is not None and core.canon(o["delivered"]) != core.canon(m["delivered"]):
-            return "delivered"
-        if not G.notif_ok(o["notified"], m["notified"]):
-            return "notified"
-        nw = len([w for w in o["writes"] if not (isinstance(w.get("json"), dict) and "method" in w["json"])])
-        if not any(seg.get("close_stdin") for seg in case["segments"]) and nw != m["rejections"]:
-            return "rejections"
+        for k, (o, m) in enumerate(zip(o.get("earlier", []) + [o], m.get("earlier", []) + [m])):
+            if o["delivered"] is not None and core.canon(o["delivered"]) != core.canon(m["delivered"]):
+                return "delivered"
+            if not G.notif_ok(o["notified"], m["notified"]):
+                return "notified"
+            nw = len([w for w in o["writes"] if not (isinstance(w.get("json"), dict) and "method" in w["json"])])
+            if not any(seg.get("close_stdin") for seg in histories(case)[k]) and nw != m["rejections"]:
+                return "rejections"
         return None
 
     # ------------------------------------------------------------------ property oracle
-    def expected(self, case):
+    def expected(self, case, segments=None):
         from .. import stdio_h
 
-        mode = True
+        mode = True  # a connection starts with no version negotiated
         delivered, notified, rejected, forbidden = [], [], 0, []
         stdin_open = True
         sets = []
-        for seg in case["segments"]:
+        for seg in (case["segments"] if segments is None else segments):
             if "set" in seg:
                 mode = mode_of(seg["set"])
                 sets.append({"set": seg["set"], "enabled": mode})
@@ -278,7 +305,20 @@ class Transport(Suite):
         return {"delivered": delivered, "notified": notified, "rejections": rejected, "_forbidden": forbidden, "_sets": sets}
 
     def oracle(self, case, o):
-        want = self.expected(case)
+        if "harness_error" in o:
+            return ("client-raised", f"the stdio client raised {o['harness_error']}", self.expected(case))
+        hs = histories(case)
+        for k, ob in enumerate(o.get("earlier", []) + [o]):
+            r = self.oracle_one(case, ob, hs[k])
+            if r is not None:
+                if k > 0:  # a connection that is not the object's first
+                    api = case.get("opts", {}).get("api", "client")
+                    return (f"{r[0]}/reentered-{api}", r[1] + f" [connection {k + 1} of {len(hs)} on the same {api} object]", r[2])
+                return r
+        return None
+
+    def oracle_one(self, case, o, segments):
+        want = self.expected(case, segments)
         forbidden = want.pop("_forbidden")
         sets = want.pop("_sets")
         if "harness_error" in o:
@@ -323,6 +363,8 @@ class Transport(Suite):
         sets = [seg.get("set", seg.get("handshake", "unset")) for seg in case["segments"]]
         if len({mode_of(s) if s != "unset" else True for s in sets}) > 1:
             tags.append("mode-change")
+        if case.get("then"):
+            tags.append("reconnect")
         return f"segments={min(nseg, 3)}{'+' if nseg > 3 else ''}/" + ("+".join(tags) or "plain")
 
     @staticmethod
@@ -334,16 +376,16 @@ class Transport(Suite):
     def nontrivial(self, case, o):
         return any(seg["items"] for seg in case["segments"])
 
-    def shrink_candidates(self, case):
-        segs = case["segments"]
+    @staticmethod
+    def _shrink_segs(segs, keep_one=True):
         for i in range(len(segs)):
-            if len(segs) > 1:
-                yield {"segments": segs[:i] + segs[i + 1:]}
+            if len(segs) > 1 or not keep_one:
+                yield segs[:i] + segs[i + 1:]
         for i, seg in enumerate(segs):
             if seg.get("cuts"):
-                yield {"segments": segs[:i] + [dict(seg, cuts=[])] + segs[i + 1:]}
+                yield segs[:i] + [dict(seg, cuts=[])] + segs[i + 1:]
             for j in range(len(seg["items"])):
-                yield {"segments": segs[:i] + [dict(seg, items=seg["items"][:j] + seg["items"][j + 1:], cuts=[])] + segs[i + 1:]}
+                yield segs[:i] + [dict(seg, items=seg["items"][:j] + seg["items"][j + 1:], cuts=[])] + segs[i + 1:]
             for j, it in enumerate(seg["items"]):
                 try:
                     d = json.loads(it["text"])
@@ -352,9 +394,25 @@ class Transport(Suite):
                 if isinstance(d, list) and len(d) > 1:
                     for k in range(len(d)):
                         nd = d[:k] + d[k + 1:]
-                        yield {"segments": segs[:i] + [dict(seg, items=seg["items"][:j] + [dict(it, text=_c(nd))] + seg["items"][j + 1:],
-                                                           cuts=[])] + segs[i + 1:]}
+                        yield segs[:i] + [dict(seg, items=seg["items"][:j] + [dict(it, text=_c(nd))] + seg["items"][j + 1:],
+                                               cuts=[])] + segs[i + 1:]
 
+    def shrink_candidates(self, case):
+        if not case.get("then"):
+            for segs in self._shrink_segs(case["segments"]):
+                yield {"segments": segs}
+            return
+        # consecutive connections on one object: fewer connections, then less inside each (the entry point is kept)
+        keep = {k: v for k, v in case.items() if k in ("opts",)}
+        then = case["then"]
+        for i in range(len(then)):
+            rest = then[:i] + then[i + 1:]
+            yield dict(keep, segments=case["segments"], **({"then": rest} if rest else {}))
+        for segs in self._shrink_segs(case["segments"]):
+            yield dict(keep, segments=segs, then=then)
+        for i, h in enumerate(then):
+            for segs in self._shrink_segs(h):
+                yield dict(keep, segments=case["segments"], then=then[:i] + [segs] + then[i + 1:])
 
 def suites():
     return [Transport()]
